@@ -246,6 +246,11 @@ func (vc *VC) modelCall(fr *Frame, st *State, callee *ssa.Function, args []strin
 					kind = fmt.Sprintf("float%d", p)
 				}
 			}
+			// the text denotes the float64 argument only when it is formatted as one: with bit size 32 the value is
+			// first rounded to float32, so what is written is no longer the value of the expression it came from
+			if b, ok := constArg(argVals, 3); !ok || b != 64 {
+				src = ""
+			}
 			vc.setShape(r, shHole(kind, src))
 		case "(time.Time).Format":
 			vc.setShape(r, shHole("time", src))
